@@ -97,7 +97,7 @@ func seqClasses(c statCase, n int) []string {
 }
 
 func checkC01(c statCase) (Outcome, error) {
-	bits := c.Seq.Expand()
+	bits := windowBits(c.Seq.Expand(), uint64(c.Seq.N)*2654435761+c.Seq.Seed+uint64(len(c.Test)))
 	n := len(bits)
 	what := fmt.Sprintf("%s m=%d n=%d family=%s", c.Test, c.M, n, c.Seq.Family)
 	out := Outcome{Classes: seqClasses(c, n)}
@@ -107,7 +107,7 @@ func checkC01(c statCase) (Outcome, error) {
 		gp, gq = rn.MonoBitFrequencyTest(bits)
 		wp, wq = ref.Monobit(bits)
 	case "monobitBytes":
-		gp, gq = rn.MonoBitFrequencyTestBytes(gen.Pack(bits))
+		gp, gq = rn.MonoBitFrequencyTestBytes(windowBytes(gen.Pack(bits), uint64(n)+c.Seq.Seed))
 		wp, wq = ref.Monobit(bits)
 	case "blockAuto":
 		gp, gq = rn.FrequencyWithinBlockTest(bits)
@@ -119,7 +119,7 @@ func checkC01(c statCase) (Outcome, error) {
 		wp = ref.BlockFreq(bits, c.M)
 		wq = wp
 	case "blockBytes":
-		gp, gq = rn.FrequencyWithinBlockTestBytes(gen.Pack(bits), c.M)
+		gp, gq = rn.FrequencyWithinBlockTestBytes(windowBytes(gen.Pack(bits), uint64(n)+c.Seq.Seed), c.M)
 		wp = ref.BlockFreq(bits, c.M)
 		wq = wp
 	case "poker":
@@ -127,7 +127,7 @@ func checkC01(c statCase) (Outcome, error) {
 		wp = ref.Poker(bits, c.M)
 		wq = wp
 	case "pokerBytes":
-		gp, gq = rn.PokerTestBytes(gen.Pack(bits), c.M)
+		gp, gq = rn.PokerTestBytes(windowBytes(gen.Pack(bits), uint64(n)+c.Seq.Seed), c.M)
 		wp = ref.Poker(bits, c.M)
 		wq = wp
 	case "overlap":
@@ -139,7 +139,7 @@ func checkC01(c statCase) (Outcome, error) {
 		}
 		return out, cmpPQ("overlap", what+" (P2,Q2)", p2, q2, w2, w2, "C01")
 	case "overlapBytes":
-		p1, p2, q1, q2 := rn.OverlappingTemplateMatchingTestBytes(gen.Pack(bits), c.M)
+		p1, p2, q1, q2 := rn.OverlappingTemplateMatchingTestBytes(windowBytes(gen.Pack(bits), uint64(n)+c.Seq.Seed), c.M)
 		w1, w2 := ref.Overlap(bits, c.M)
 		out.NonTrivial = nontrivialP(w1) || nontrivialP(w2)
 		if err := cmpPQ("overlap", what+" (P1,Q1)", p1, q1, w1, w1, "C01"); err != nil {
@@ -147,7 +147,7 @@ func checkC01(c statCase) (Outcome, error) {
 		}
 		return out, cmpPQ("overlap", what+" (P2,Q2)", p2, q2, w2, w2, "C01")
 	case "apenBytes":
-		gp, gq = rn.ApproximateEntropyTestBytes(gen.Pack(bits), c.M)
+		gp, gq = rn.ApproximateEntropyTestBytes(windowBytes(gen.Pack(bits), uint64(n)+c.Seq.Seed), c.M)
 		wp = ref.ApEn(bits, c.M)
 		wq = wp
 	case "apen":
